@@ -38,7 +38,8 @@ exec(compile("def nosource(msg):\n    raise ValueError(msg)\n", "<generated-no-s
 # (how to raise, expected class name, expected failing line in inner.py or None)
 BLANK_LINES = open(blankfirst.__file__, encoding="utf-8").read().split("\n")
 SITES = [("first", "ValueError", 2), ("markup", "KeyError", 10), ("multi", "RuntimeError", 16), ("deep1", "IndexError", 21), ("deep3", "IndexError", 21), ("deep60", "IndexError", 21),
-         ("custom", "Custom", 27), ("chained1", "RuntimeError", 37), ("chained2", "RuntimeError", 36), ("last", "ValueError", 38), ("nosource", "ValueError", None), ("nosource_mid", "ValueError", 2), ("library", "CliKitException", None), ("blank_first", "ValueError", 4)]
+         ("custom", "Custom", 27), ("chained1", "RuntimeError", 37), ("chained2", "RuntimeError", 36), ("last", "ValueError", 38), ("nosource", "ValueError", None), ("nosource_mid", "ValueError", 2), ("library", "CliKitException", None), ("blank_first", "ValueError", 4),
+         ("emptyname", "ValueError", None), ("relname", "ValueError", None), ("symlinked", "IndexError", 21)]
 
 
 def _raise(site, msg):
@@ -58,6 +59,12 @@ def _raise(site, msg):
         _NS2["via"](msg)
     elif site == "library":
         raise CliKitException(msg)
+    elif site == "emptyname":
+        _NS3["emptyname"](msg)
+    elif site == "relname":
+        _NS4["relname"](msg)
+    elif site == "symlinked":
+        OUTER_LNK.call("deep", 3, msg)
     elif site == "blank_first":
         blankfirst.blank_first(msg)
     else:
@@ -67,7 +74,30 @@ def _raise(site, msg):
 _NS2 = {"first": inner.first}
 exec(compile("def via(msg):\n    first(msg)\n", "<generated-no-source-2>", "exec"), _NS2)
 
-IGNORES = [None, r".*tracegen/lib/", r".*tracegen/inner"]
+IGNORES = [None, r".*tracegen/lib/", r".*tracegen/inner", r"^<generated-no-source-2>$", r".*/lnk/"]
+# frames whose code was compiled under unusual file names
+_NS3, _NS4 = {}, {}
+exec(compile("def emptyname(msg):\n    raise ValueError(msg)\n", "", "exec"), _NS3)
+exec(compile("def relname(msg):\n    raise ValueError(msg)\n", "no such dir/x y.py", "exec"), _NS4)
+
+
+def _linked_outer():
+    """The library module imported a second time through a SYMLINKED directory: its frames report the path through the link."""
+    import atexit
+    import importlib.util
+    import os
+    import shutil
+    import tempfile
+    d = tempfile.mkdtemp(prefix="c20lnk")
+    atexit.register(shutil.rmtree, d, True)
+    os.symlink(os.path.dirname(outer.__file__), os.path.join(d, "lnk"))
+    spec = importlib.util.spec_from_file_location("outer_lnk", os.path.join(d, "lnk", "outer.py"))
+    mod = importlib.util.module_from_spec(spec)
+    spec.loader.exec_module(mod)
+    return mod
+
+
+OUTER_LNK = _linked_outer()
 SNIP = re.compile(r"^\s*(→|>)?\s*(\d+)(│|\|) ?(.*)$")
 
 
@@ -125,8 +155,16 @@ def _check_render(out, site, cls, line, msg, verbosity, simple, utf8, ignore):
             continue
         if n > len(src_lines) or text.rstrip() != src_lines[n - 1].rstrip():
             return False                               # source lines made of single-line tokens appear verbatim
+    if site == "nosource_mid" and verbosity >= 1:        # an ignore pattern aimed at a pseudo file name
+        listed = "<generated-no-source-2>" in out
+        if (ignore == IGNORES[3] and verbosity < 3 and listed) or ((ignore is None or verbosity == 3) and not listed):
+            return False
+    if site == "symlinked" and verbosity >= 1:           # a pattern that matches the path as it is reported (through the symbolic link)
+        listed = "/lnk/outer.py" in out
+        if (ignore == IGNORES[4] and verbosity < 3 and listed) or ((ignore is None or verbosity == 3) and not listed):
+            return False
     # frames under an ignored path are left out of the stack listing unless the verbosity is debug
-    if verbosity >= 1 and site not in ("nosource", "library", "nosource_mid", "blank_first"):
+    if verbosity >= 1 and site not in ("nosource", "library", "nosource_mid", "blank_first", "emptyname", "relname", "symlinked"):
         listed_outer = "tracegen/lib/outer.py" in out
         listed_inner_frames = len(re.findall(r"tracegen/inner\.py:\d+ in ", out))
         if ignore == IGNORES[1] and verbosity < 3 and listed_outer:
@@ -160,10 +198,10 @@ def _render_case(site_i, msg_i, verbosity, simple, utf8, ignore_i, second_ignore
 
 def render(msg_i: int, verbosity: int, simple: bool, utf8: bool, ignore_i: int) -> bool:
     """
-    pre: 0 <= msg_i < len(MESSAGES) and 0 <= verbosity <= 3 and 0 <= ignore_i <= 2
+    pre: 0 <= msg_i < len(MESSAGES) and 0 <= verbosity <= 3 and 0 <= ignore_i <= 4
     post: _
     """
-    return isolated(_render_case, PART["site"], conc_int(msg_i, 0, len(MESSAGES) - 1), conc_int(verbosity, 0, 3), conc_bool(simple), conc_bool(utf8), conc_int(ignore_i, 0, 2), None, 0)
+    return isolated(_render_case, PART["site"], conc_int(msg_i, 0, len(MESSAGES) - 1), conc_int(verbosity, 0, 3), conc_bool(simple), conc_bool(utf8), conc_int(ignore_i, 0, 4), None, 0)
 
 
 def render_twice(site_i: int, verbosity: int, ignore_i: int, second_ignore_i: int, second_verbosity: int) -> bool:
@@ -244,7 +282,7 @@ def conditions(tier):
     conds.append({"name": "snippet_twin", "fn": snippet_twin, "timeout": t, "expect": "refute", "part": {"src": 2}, "bounds": "reachability twin"})
     for si, (site, cls, line) in enumerate(SITES):
         conds.append({"name": "render[%s]" % site, "fn": render, "timeout": t, "part": {"site": si},
-                      "bounds": "%s raised at %s; 8 messages x 4 verbosities x simple x UTF-8 x 3 ignore patterns" % (cls, "inner.py:%d" % line if line else "code without source")})
+                      "bounds": "%s raised at %s; 8 messages x 4 verbosities x simple x UTF-8 x 5 ignore patterns (none, library path, the file itself, a pseudo file name, a path through a symbolic link)" % (cls, "inner.py:%d" % line if line else "code without source")})
     for si in range(10):
         conds.append({"name": "render_twice[%s]" % SITES[si][0], "fn": render_twice, "timeout": t, "part": {"site": si},
                       "bounds": "raise site %s; two renders in one process (forked per case) with independent ignore patterns and verbosities" % SITES[si][0]})
